@@ -3,7 +3,8 @@
 (* Bounded instance of ChainView: chain shapes x role placements x         *)
 (* delivery schedules.                                                     *)
 (*                                                                         *)
-(* Shapes: branch A = blocks 1..la on top of block 0, branch B = lb blocks *)
+(* Shapes: branch A = blocks 1..la (la = MaxA; shorter A chains are its    *)
+(* prefixes, reached as intermediate targets), branch B = lb blocks        *)
 (* forking from block f of A (0 <= f < la).  Every role of UseRoles is     *)
 (* absent from / placed in one block of A, and absent from / placed in one *)
 (* block of B's own part (present, absent or moved in the competing fork). *)
@@ -54,7 +55,7 @@ Targets(la, f, lb) ==
   IN {p \o <<la>> \o q : p \in pre, q \in post}
 
 MCInit ==
-  \E la \in 1..MaxA, lb \in 0..MaxB :
+  \E la \in {MaxA}, lb \in 0..MaxB :
     /\ la + lb <= MaxBlocks
     /\ \E f \in 0..(la - 1) :
        \E pl \in Placements(la, lb) :
@@ -78,17 +79,19 @@ Path(from, to) == {b \in Chain(to) : ~Anc(b, from)}
 
 \* plain delivery of the next transition, in one step
 MPlain ==
-  /\ phase = "idle" /\ todo # <<>>
+  /\ todo # <<>>
+  /\ phase = "idle" \/ (phase = "restarted" /\ explored >= MaxExplored)
   /\ ifc \in {"none", "listen"}
   /\ target' = Head(todo) /\ todo' = Tail(todo)
   /\ tp' = Head(todo)
   /\ cf' = [r \in Roles |-> Place(r, Head(todo))]
   /\ ifc' = "listen" /\ gv' = FALSE
   /\ hist' = Append(hist, [op |-> "plain", t |-> Head(todo)])
-  /\ UNCHANGED <<hvars, phase, explored, dups, restarts>>
+  /\ phase' = "idle"
+  /\ UNCHANGED <<hvars, explored, dups, restarts>>
 
 MBegin ==
-  /\ phase = "idle" /\ todo # <<>>
+  /\ phase \in {"idle", "restarted"} /\ todo # <<>>
   /\ explored < MaxExplored
   /\ target' = Head(todo) /\ todo' = Tail(todo)
   /\ phase' = "moving" /\ explored' = explored + 1
@@ -98,11 +101,13 @@ MBegin ==
 
 MRestart ==
   /\ phase = "idle" /\ todo # <<>> /\ hist # <<>>
-  /\ restarts < MaxRestarts
+  /\ restarts < MaxRestarts \/ (ifc = "confirm" /\ explored >= MaxExplored)
   /\ hist[Len(hist)].op # "restart"
+  /\ explored < MaxExplored \/ ifc = "confirm"
   /\ ifc' = "none" /\ restarts' = restarts + 1
+  /\ phase' = "restarted"                  \* (in this instance) always followed by an explored transition
   /\ hist' = Append(hist, [op |-> "restart"])
-  /\ UNCHANGED <<hvars, target, tp, cf, gv, phase, todo, explored, dups>>
+  /\ UNCHANGED <<hvars, target, tp, cf, gv, todo, explored, dups>>
 
 MConnect ==
   /\ phase = "moving"
@@ -159,8 +164,7 @@ MSync ==
 
 MDone == phase = "idle" /\ todo = <<>> /\ UNCHANGED mvars
 \* out of budget (a bound of this instance, not of the contract): the behaviour is abandoned
-MAbandon == /\ phase = "idle" /\ todo # <<>> /\ ifc = "confirm"
-            /\ explored >= MaxExplored /\ restarts >= MaxRestarts /\ UNCHANGED mvars
+MAbandon == FALSE /\ UNCHANGED mvars
 
 MCNext == MPlain \/ MBegin \/ MRestart \/ MConnect \/ MDisconnect \/ MTxs \/ MUnconfirm \/ MBest
           \/ MSync \/ MDone \/ MAbandon
@@ -176,7 +180,7 @@ NothingLeft ==
   /\ Stale(cf) = {}
   /\ \A r \in Roles : Place(r, target) # None => cf[r] = Place(r, target)
 EnvConsistent == NothingLeft => SyncedTo(tp, cf)
-IdleIsSynced == phase = "idle" => SyncedTo(tp, cf)
+IdleIsSynced == phase \in {"idle", "restarted"} => SyncedTo(tp, cf)
 HistoryOK == TreeOK
 
 \* a behaviour is only interesting when at least one transition was explored call by call
